@@ -732,7 +732,7 @@ def stat_projection(mean, std, mn, mx, incr):
     """Integer projection of one {mean,std,min,max} entry (no judgement):
     mnI/mxI  : min/max if they are integers (else 'nonint'),
     sum      : llround(mean*incr) and the residual in 1/1024 units,
-    var1k    : llround(std^2 * 1000); nan flags."""
+    var100   : llround(std^2 * 100); nan flags."""
     import math
     r = {"nan": [int(math.isnan(v)) for v in (mean, std, mn, mx)]}
     def ival(v):
@@ -746,10 +746,10 @@ def stat_projection(mean, std, mn, mx, incr):
         sm = mean * incr
         r["sum"] = int(round(sm))
         r["sres"] = int(min(1e6, round(abs(sm - round(sm)) * 1024)))
-    if math.isnan(std) or math.isinf(std) or std * std * 1000 > 2e9:
-        r["var1k"] = -1
+    if math.isnan(std) or math.isinf(std) or std * std * 100 > 2e9:
+        r["var100"] = -1
     else:
-        r["var1k"] = int(round(std * std * 1000))
+        r["var100"] = int(round(std * std * 100))
     return r
 
 
